@@ -74,6 +74,11 @@ type teeClient struct {
 
 var teeSeq atomic.Int64
 
+// progress is bumped whenever anything completes (a call, an upload, a listing):
+// the watchdog only reports a call that is overdue while the whole process has
+// been silent, so a long but advancing operation on a loaded machine is not a deadlock.
+var progress atomic.Int64
+
 // uploads of one snapshot name that overlapped in time (keyed by snapDir + TXID)
 var (
 	ovMu       sync.Mutex
@@ -98,7 +103,13 @@ func overlapped(snapDir string, n ltx.TXID) bool {
 	return ovSeen[fmt.Sprintf("%s:%d", snapDir, uint64(n))]
 }
 
+func (c *teeClient) LTXFiles(ctx context.Context, level int, seek ltx.TXID, useMetadata bool) (ltx.FileIterator, error) {
+	defer progress.Add(1)
+	return c.ReplicaClient.LTXFiles(ctx, level, seek, useMetadata)
+}
+
 func (c *teeClient) WriteLTXFile(ctx context.Context, level int, minTXID, maxTXID ltx.TXID, rd io.Reader) (*ltx.FileInfo, error) {
+	defer progress.Add(1)
 	switch level {
 	case 0:
 		b, err := io.ReadAll(rd)
@@ -259,17 +270,23 @@ func call(name string, f func()) {
 		wdMu.Lock()
 		delete(wdCalls, id)
 		wdMu.Unlock()
+		progress.Add(1)
 	}()
 	f()
 }
 
 func watchdog(finish func()) {
+	last, lastChange := progress.Load(), time.Now()
 	for {
 		time.Sleep(200 * time.Millisecond)
+		if p := progress.Load(); p != last {
+			last, lastChange = p, time.Now()
+		}
+		silent := time.Since(lastChange) > wdTimeout/3
 		wdMu.Lock()
 		var stuck []string
 		for _, c := range wdCalls {
-			if time.Since(c.start) > wdTimeout {
+			if age := time.Since(c.start); (age > wdTimeout && silent) || age > 8*wdTimeout {
 				stuck = append(stuck, c.name)
 			}
 		}
@@ -282,7 +299,7 @@ func watchdog(finish func()) {
 			p := filepath.Join(wdOutDir, "deadlock-goroutines.txt")
 			_ = os.WriteFile(p, buf[:n], 0o644)
 			violate("C12/call-did-not-return:"+stuck[0],
-				fmt.Sprintf("operation(s) %v did not return within %s (deadlock or leaked lock); goroutine dump in %s", stuck, wdTimeout, p),
+				fmt.Sprintf("operation(s) %v did not return within %s while no call, upload or listing completed anywhere in the process for %s (deadlock or leaked lock); goroutine dump in %s", stuck, wdTimeout, wdTimeout/3, p),
 				rep)
 			finish()
 			os.Exit(0)
@@ -1282,6 +1299,8 @@ func cmdConc(args []string) error {
 	seed := fl.Int64("seed", 1, "PRNG seed")
 	only := fl.Int("only", -1, "run only this episode (replay)")
 	f9 := fl.Bool("f9", true, "also run the F9 scenario")
+	regsched := fl.Int("regsched", 2, "registry schedules: longest sequence of whole calls while a RegisterDB is parked (0 = skip)")
+	regstress := fl.Int("regstress", 10, "rounds of the randomised multi-path registration scenario (0 = skip)")
 	halfinit := fl.Bool("halfinit", true, "also run the init-under-cancelled-context scenario")
 	snapdup := fl.Int("snapdup", 6, "rounds of the concurrent-snapshot scenario (0 = skip)")
 	budget := fl.Duration("budget", 0, "stop starting new episodes after this much wall time (0 = none)")
@@ -1303,7 +1322,7 @@ func cmdConc(args []string) error {
 		return err
 	}
 	var results []epResult
-	var f9detail, sddetail, hidetail string
+	var f9detail, sddetail, hidetail, rsdetail, rtdetail string
 	finish := func() {
 		_ = cw.Close()
 		st := cw.Stats()
@@ -1316,12 +1335,18 @@ func cmdConc(args []string) error {
 				tot[k] += v
 			}
 		}
-		st.Extra = map[string]any{"episodes": results, "ops_total": tot, "f9": f9detail, "snapdup": sddetail, "halfinit": hidetail, "trace_hook": traceEnabled}
+		st.Extra = map[string]any{"episodes": results, "ops_total": tot, "f9": f9detail, "snapdup": sddetail, "halfinit": hidetail, "regsched": rsdetail, "regstress": rtdetail, "trace_hook": traceEnabled}
 		_ = WriteJSON(filepath.Join(*out, "stats.json"), st)
 	}
 	go watchdog(finish)
 	// the discipline check of the transcribed operations, evaluated by the extracted model
 	cw.Add("conc_progs_checked", L(), I(1), "model/discipline-check", false)
+	if *regsched > 0 && *only < 0 {
+		rsdetail = scenarioRegSched(*out, *regsched, cw)
+	}
+	if *regstress > 0 && *only < 0 {
+		rtdetail = scenarioRegStress(*out, *seed, *regstress)
+	}
 	t0 := time.Now()
 	for k := 0; k < *n; k++ {
 		if *only >= 0 && k != *only {
